@@ -20,6 +20,15 @@
 
 namespace vt {
 
+// allocation meter (C02: a decode never allocates more than a type-dependent constant multiple of the input
+// length).  Types without dynamic storage report 0; spec/format_spec_std.h specialises it for the growable
+// containers (model: ghost counter of the std models; native replay: bytes requested from operator new).
+template <typename T, typename Enable = void>
+struct AllocMeter {
+  static unsigned long now() { return 0; }
+  static unsigned long per_byte() { return 0; }
+};
+
 // ------------------------------------------------------------------------------ kits
 template <typename R>
 struct ReaderKit;
@@ -185,7 +194,11 @@ void lemma_decode() {
   T out;
   Gen<T>::make(&out);  // arbitrary prior contents
   nop::Deserializer<R*> d{k.reader()};
+  const unsigned long alloc0 = AllocMeter<T>::now();
   auto st = d.Read(&out);
+  const unsigned long allocated = AllocMeter<T>::now() - alloc0;
+  vt_check(allocated <= AllocMeter<T>::per_byte() * n + (AllocMeter<T>::per_byte() ? 64 : 0), "(ghost) a decode allocates at most a type-dependent constant multiple of the input length");
+  vt_check(g_unensured_resize == 0, "(ghost) no container is resized to a length the reader has not vouched for (Ensure before resize)");
   fmt::In in;
   fmt::init(in, buf, n);
   T ref;
